@@ -18,7 +18,7 @@ EXPR_ERR = {"illtyped": "DataTypeError", "nested_agg": "FunctionTypeError", "mar
 VERB_OFFENDERS = {
     "filter_nonbool": "DataTypeError", "filter_agg": "FunctionTypeError", "summarize_window": "FunctionTypeError",
     "summarize_nonkey": "FunctionTypeError", "select_unknown": "ColumnNotFoundError", "select_hidden": "ColumnNotFoundError",
-    "rename_dup": "ValueError", "rename_unknown": "ValueError", "group_by_hidden": "ValueError", "slice_grouped": "ValueError",
+    "rename_dup": "ValueError", "rename_dup_new": "ValueError", "rename_unknown": "ValueError", "group_by_hidden": "ValueError", "slice_grouped": "ValueError",
     "join_grouped": "ValueError", "join_same_origin": "ValueError", "join_backends": "TypeError", "join_suffix_dup": "ValueError",
     "join_on_nonbool": "DataTypeError", "join_on_agg": "FunctionTypeError", "join_full_noneq": "ValueError",
     "join_on_unknown": "ValueError", "join_on_out_of_scope": "ValueError", "marker_in_filter": "TypeError",
@@ -188,7 +188,7 @@ def c14_case(draw, tier):
         if which == "join_grouped" and not t.group and len(t.visible) == 0:
             case["mode"] = "skip"
             return case
-        if which == "rename_dup" and len(t.visible) < 2:
+        if which in ("rename_dup", "rename_dup_new") and len(t.visible) < 2:
             case["mode"] = "skip"
             return case
         if which == "slice_grouped" and not t.group:
@@ -239,7 +239,7 @@ class C14(Check):
             "nested calls, case value, case condition, filter= / arrange= context arguments) via C. or table references in "
             "a generated verb context (mutate, filter, arrange, summarize, join on); (b) verb-level offenders (non-boolean "
             "filter/on, aggregate in filter/on, window in summarize, non-key column in summarize, unknown/hidden column in "
-            "select, duplicate or unknown rename, group_by of a hidden column, slice_head on a grouped table, join of "
+            "select, duplicate (also two columns to one new name) or unknown rename, group_by of a hidden column, slice_head on a grouped table, join of "
             "grouped / same-origin / different-backend tables, colliding user suffix, full join with a non-equality, a join "
             "condition over a column that a summarize / alias / union has cut off). "
             "Oracle: the call raises exactly the documented exception type on Polars and on SQLite and the input table "
@@ -338,6 +338,10 @@ class C14(Check):
         if which == "rename_dup":
             names = tbl >> pdt.columns()
             return tbl >> pdt.rename({names[0]: names[1]})
+        if which == "rename_dup_new":
+            # two columns mapped to the same (new) name
+            names = tbl >> pdt.columns()
+            return tbl >> pdt.rename({names[0]: "zz_same", names[-1]: "zz_same"})
         if which == "rename_unknown":
             return tbl >> pdt.rename({"zz_nope": "zz_other"})
         def hide_and_alias(t2):
